@@ -79,8 +79,13 @@ def o1_indices(n1: int, n2: int, tol: int, excl=(), **v) -> bool:
 
 
 def _frag(mz, idx):
-    return Fragment(charge=1, ion_type="b", start=0, end=idx + 1, monoisotopic=True, isotope=0, loss=0.0,
-                    parent_sequence="PEPTIDE", mass=mz, neutral_mass=mz, mz=mz, sequence="PEPTIDE"[: idx + 1], unmod_sequence="PEPTIDE"[: idx + 1], internal=False)
+    """fragment idx of the harness: the series alternate (b, y) and the charge changes every second fragment, so that matches of
+    several labels ('+b', '+y', '++b', '++y') meet in one coverage dictionary"""
+    ion = "b" if idx % 2 == 0 else "y"
+    z = 1 + (idx // 2) % 2
+    start, end = (0, idx + 1) if ion == "b" else (7 - (idx + 1), 7)
+    return Fragment(charge=z, ion_type=ion, start=start, end=end, monoisotopic=True, isotope=0, loss=0.0,
+                    parent_sequence="PEPTIDE", mass=mz, neutral_mass=mz, mz=mz, sequence="PEPTIDE"[start:end], unmod_sequence="PEPTIDE"[start:end], internal=False)
 
 
 def o3_fragment_matches(mode: str, n1: int, n2: int, tol: int, excl=(), **v) -> bool:
@@ -131,15 +136,13 @@ def o3_fragment_matches(mode: str, n1: int, n2: int, tol: int, excl=(), **v) -> 
     if len(got) != sum(1 for m in got if any(m.fragment is f for f in frags)):
         return _fail(why="foreign fragment in matches")
     cov = SC.get_match_coverage(got)
-    exp = [0] * 7
+    exp = {}
     for m in got:
+        row = exp.setdefault("+" * m.fragment.charge + m.fragment.ion_type, [0] * 7)
         for r in range(m.fragment.start, m.fragment.end):
-            exp[r] += 1
-    if got:
-        if list(cov.keys()) != ["+b"] or [int(x) for x in cov["+b"]] != exp:
-            return _fail(why="coverage", got=cov, want=exp)
-    elif cov != {}:
-        return _fail(why="coverage of nothing")
+            row[r] += 1
+    if {k: [int(x) for x in row] for k, row in cov.items()} != exp:
+        return _fail(why="coverage: each label's row counts the residues of that label's matched fragments, once per match", got=cov, want=exp)
     return True
 
 
